@@ -26,6 +26,8 @@ def cases(tier, r):
         for dt in (False, True):
             for mode in ("auto", "source", "destination", "column", "", "AUTO", "dest"):
                 ps.append({"x": "optpart", "st": st, "dt": dt, "mode": mode, "label": r.choice([None, "lab"])})
+                for rows, cols in ((1, 1), (1, 3), (8, 1)):
+                    ps.append({"x": "optpart", "st": st, "dt": dt, "mode": mode, "label": None, "rows": rows, "cols": cols})
     return ps
 
 
